@@ -24,7 +24,7 @@ from mirsym import vmdriver
 from mirsym.vmdriver import VmRun, skel_total
 from wasmsym.driver import WasmRun
 from wasmsym import hostwasm
-from checks import common
+from checks import common, schedrt
 
 _CTX = {}
 
@@ -91,7 +91,7 @@ def words_equal_cond(smt, a, b):
 
 
 class ProgramAnalysis(object):
-    def __init__(self, path, mir_paths, steps=2, mode='bmc', backends=('vm', 'wasm'), scheduler=False,
+    def __init__(self, path, mir_paths, steps=2, mode='bmc', backends=('vm', 'wasm'), scheduler=None,
                  query_timeout_ms=10000, max_paths=400, time_budget_s=120, seed=0, observers=None):
         self.path = path
         self.name = os.path.basename(path)[:-4]
@@ -99,7 +99,7 @@ class ProgramAnalysis(object):
         self.steps = steps
         self.mode = mode
         self.backends = backends
-        self.scheduler = scheduler
+        self.scheduler = schedrt.is_sched(path) if scheduler is None else scheduler
         self.max_paths = max_paths
         self.time_budget_s = time_budget_s
         self.query_timeout_ms = query_timeout_ms
@@ -130,6 +130,11 @@ class ProgramAnalysis(object):
             if self.crate.layout_errors:
                 r['status'] = 'error'
                 r['notes'] += self.crate.layout_errors
+                return r
+            if self.scheduler and self.mode == 'inductive':
+                # the pending-task queues are part of the state and are not made symbolic: scheduler programs are analysed from the
+                # initial state only (BMC)
+                r['status'] = 'inductive_not_applicable'
                 return r
             if not self.compile():
                 r['status'] = 'rejected'
@@ -219,8 +224,12 @@ class ProgramAnalysis(object):
                 raise PathEnd()
             if time.time() > deadline:
                 raise Unsupported('time budget of %ds for this program exhausted' % an.time_budget_s)
-            vm = VmRun(it, an.pj) if use_vm else None
-            wr = WasmRun(it, an.cj['wasm']) if use_wasm else None
+            if an.scheduler:
+                vm = schedrt.make_vm(it, an.pj) if use_vm else None
+                wr = schedrt.make_wasm(it, an.cj['wasm']) if use_wasm else None
+            else:
+                vm = VmRun(it, an.pj) if use_vm else None
+                wr = WasmRun(it, an.cj['wasm']) if use_wasm else None
             trace = []
             an.cur_trace = trace
             an.cur_vm, an.cur_wr = vm, wr
@@ -370,8 +379,9 @@ def same_word(a, b):
     return fa != fa and fb != fb
 
 
-def replay_divergence(path, d, steps, scheduler=False):
+def replay_divergence(path, d, steps, scheduler=None):
     """run the model on the real VM and the real WASM runtime; returns (confirmed, detail)"""
+    scheduler = schedrt.is_sched(path) if scheduler is None else scheduler
     spec = dict(src_path=path, backend='both', scheduler=scheduler, steps=d['step'] + 1, inputs=d.get('inputs', []),
                 init_state=d.get('init_state'), now_start=d.get('now0', 0), timeout_s=20)
     rr = common.replay(spec)
@@ -399,7 +409,8 @@ def replay_divergence(path, d, steps, scheduler=False):
     return False, detail
 
 
-def replay_panic(path, d, steps, backend='vm', scheduler=False):
+def replay_panic(path, d, steps, backend='vm', scheduler=None):
+    scheduler = schedrt.is_sched(path) if scheduler is None else scheduler
     spec = dict(src_path=path, backend=backend, scheduler=scheduler, steps=steps, inputs=d.get('inputs', []),
                 init_state=d.get('init_state'), now_start=d.get('now0', 0), timeout_s=20)
     rr = common.replay(spec)
@@ -411,8 +422,9 @@ def replay_panic(path, d, steps, backend='vm', scheduler=False):
 # ---------------------------------------------------------------------------------------------------
 # concrete-mode self test of the encoders against the real runtimes
 # ---------------------------------------------------------------------------------------------------
-def selftest(path, mir_paths, steps, seed, scheduler=False):
+def selftest(path, mir_paths, steps, seed, scheduler=None):
     """run mirsym-VM and wasmsym with concrete inputs and compare bit-for-bit with the real runtimes"""
+    scheduler = schedrt.is_sched(path) if scheduler is None else scheduler
     import random
     import zlib
     rng = random.Random(seed * 7919 + zlib.crc32(os.path.basename(path).encode()) % 1000)
@@ -437,8 +449,8 @@ def selftest(path, mir_paths, steps, seed, scheduler=False):
     out = {}
 
     def p(it):
-        vm = VmRun(it, pj)
-        wr = WasmRun(it, an.cj['wasm'])
+        vm = schedrt.make_vm(it, pj) if scheduler else VmRun(it, pj)
+        wr = schedrt.make_wasm(it, an.cj['wasm']) if scheduler else WasmRun(it, an.cj['wasm'])
         vm.run_main()
         wr.run_main()
         vo, wo, vs, ws = [], [], [], []
